@@ -247,6 +247,14 @@ class Typer:
         if isinstance(arg, ast.Name):
             for n in walk_no_nested(self.fn):
                 if isinstance(n, ast.Assign) and len(n.targets) == 1 and isinstance(n.targets[0], ast.Name) and n.targets[0].id == arg.id:
+                    if isinstance(n.value, ast.List) and not n.value.elts:
+                        # `rows = []` filled by rows.append(<x>): the kinds of everything appended
+                        apps = [c.args[0] for c in walk_no_nested(self.fn) if isinstance(c, ast.Call) and isinstance(c.func, ast.Attribute) and c.func.attr == 'append'
+                                and dotted(c.func.value) == arg.id and len(c.args) == 1]
+                        kinds = {self.elt_kind(a, depth + 1) for a in apps}
+                        if not kinds:
+                            return 'unknown'
+                        return 'str' if 'str' in kinds else ('unknown' if 'unknown' in kinds else kinds.pop() if len(kinds) == 1 else 'num')
                     return self.join_kind(n.value, depth)
             return 'unknown'
         if isinstance(arg, (ast.ListComp, ast.GeneratorExp)):
@@ -266,6 +274,10 @@ class Typer:
             inner = elt.args[0]
             if isinstance(inner, ast.Call) and dotted(inner.func) == 'getattr':
                 return 'num'      # str(getattr(vert, membr)): DispVertex members are numbers/vectors (checked by V4 through the member table)
+            if isinstance(inner, ast.Name):
+                defs = [n.value for n in walk_no_nested(self.fn) if isinstance(n, ast.Assign) and len(n.targets) == 1 and isinstance(n.targets[0], ast.Name) and n.targets[0].id == inner.id]
+                if defs and all(isinstance(d, ast.Call) and dotted(d.func) in ('getattr', 'float', 'int', 'format_float') for d in defs):
+                    return 'num'  # value = getattr(vert, membr) [; value = float(value)]
             return self.kind(inner, depth + 1)
         return self.kind(elt, depth + 1)
 
@@ -632,6 +644,35 @@ def run(ctx: Any, prog: Program) -> None:
         nm = getattr(fn_, 'name', '<lambda>')
         ctx.check('C06.V16', False, vm, fn_, f'`{nm}` is created inside `for {ast.unparse(lp_.target)} in ...` and reads `{var_}` when it is called, not when it is created: every function made by the loop uses the value of the '
                   f'LAST iteration (all four multiblend setters would store into the same colour slot)', text=f'{nm}: loop variable {var_} bound late')
+    # ---- V17: scalar displacement rows have one spelling per value ------------------------------------------------------------------
+    # DispVertex.distance / .alpha are annotated float but accept ints (default `distance = 0`); the parser always yields floats.  A writer
+    # that prints `str(member)` writes "5" for the user's int and "5.0" after a re-parse: the second export differs from the first.
+    ctx.rule('C06.V17', 'scalar displacement members are written through float()/format_float so that an int and the float it re-parses to give the same text', floor=2)
+    rs = vm.func('Side._export_disp_rowset')
+    dv_fields = field_types(vm, 'DispVertex')
+    scalar_members = []
+    for c in ast.walk(vm.func('Side._export_displacement')):
+        if isinstance(c, ast.Call) and dotted(c.func) == 'self._export_disp_rowset' and len(c.args) >= 2 and isinstance(c.args[1], ast.Constant):
+            ann = dv_fields.get(c.args[1].value, '')
+            if re.fullmatch(r'(float|int|Union\[int, float\]|Union\[float, int\])', (ann or '').replace("'", '').strip()):
+                scalar_members.append(c.args[1].value)
+    if len(scalar_members) < 2:
+        raise AnalysisError(f'V17: scalar members written by _export_disp_rowset not found ({scalar_members}); distance and alpha confirmed by hand')
+    strs = [c for c in ast.walk(rs) if isinstance(c, ast.Call) and dotted(c.func) in ('str', 'format_float', 'repr', 'format') and c.args]
+    ctx.shape('C06.V17', len(strs) == 1, vm, rs, '_export_disp_rowset stringifies each member with one call', func='Side._export_disp_rowset', text='row set stringification')
+    if len(strs) == 1:
+        call = strs[0]
+        arg = call.args[0]
+        normalised = dotted(call.func) == 'format_float' or (isinstance(arg, ast.Call) and dotted(arg.func) in ('float', 'format_float'))
+        if not normalised and isinstance(arg, ast.Name):
+            # `if isinstance(value, int): value = float(value)` in front of the str()
+            normalised = any(isinstance(i, ast.If) and isinstance(i.test, ast.Call) and dotted(i.test.func) == 'isinstance' and dotted(i.test.args[0]) == arg.id and 'int' in ast.unparse(i.test.args[1])
+                             and any(isinstance(a, ast.Assign) and dotted(a.targets[0]) == arg.id and isinstance(a.value, ast.Call) and dotted(a.value.func) == 'float' for a in i.body) for i in ast.walk(rs))
+        if not normalised and isinstance(arg, ast.IfExp):
+            normalised = 'float(' in ast.unparse(arg) and 'isinstance' in ast.unparse(arg.test)
+        for m_ in scalar_members:
+            ctx.check('C06.V17', normalised, vm, call, f'DispVertex.{m_} is written as `{ast.unparse(call)[:50]}`: an int assigned through the API (the default distance is the int 0) is written as "0" but re-parsed as the float 0.0 '
+                      'and written as "0.0" the next time - exporting, parsing and exporting again does not reproduce the text', func='Side._export_disp_rowset', text=f'row member {m_} has one spelling')
     # every class with both export and parse must be in PAIRS (discovery cross-check)
     for cname, c in vm.all_classes().items():
         ms = vm.methods(cname)
@@ -1071,6 +1112,7 @@ def elt_token_alternatives(elt: ast.AST, tokens_of_type: Dict[str, int]) -> Opti
 
 
 MUTANTS = [
+    {'id': 'disp_scalars_written_with_plain_str', 'file': 'vmf.py', 'find': "            if isinstance(value, int):\n                # Scalars are parsed back as floats, give an int the same text as the re-parsed map would have.\n                value = float(value)\n", 'replace': "", 'expect': 'C06.V17'},
     {'id': 'multiblend_setters_bind_late', 'file': 'vmf.py', 'find': "_disprow_multiblend = [\n    (f'multiblend_color_{i}', _make_disprow_set_multiblend(i))\n    for i in range(4)\n]", 'replace': "_disprow_multiblend = []\nfor _i in range(4):\n    def _setter(vert: DispVertex, value: Vec) -> None:\n        assert vert.multi_colors is not None\n        vert.multi_colors[_i] = value\n    _disprow_multiblend.append((f'multiblend_color_{_i}', _setter))", 'expect': 'C06.V16'},
     {'id': 'world_comments_not_exported', 'file': 'vmf.py', 'find': "        if self.comments:\n            buffer.write(f'{ind}\\t\\t\"comments\" \"{escape_text(self.comments)}\"\\n')\n        buffer.write(ind + '\\t}\\n')\n\n        buffer.write(ind + '}\\n')", 'replace': "        if self.comments and not _is_worldspawn:\n            buffer.write(f'{ind}\\t\\t\"comments\" \"{escape_text(self.comments)}\"\\n')\n        buffer.write(ind + '\\t}\\n')\n\n        buffer.write(ind + '}\\n')", 'expect': 'C06.V15'},
     {'id': 'multiblend_outside_dispinfo', 'file': 'vmf.py', 'find': "        buffer.write(f'{ind}\\t\\t}}\\n')\n\n        if disp_multiblend and any(vert.multi_blend for vert in self._disp_verts):", 'replace': "        buffer.write(f'{ind}\\t\\t}}\\n{ind}\\t}}\\n')\n\n        if disp_multiblend and any(vert.multi_blend for vert in self._disp_verts):",
